@@ -398,7 +398,10 @@ pub fn scenarios(tier: Tier) -> (Vec<Scenario>, Limits, String) {
                 out.push(Scenario { values: s.clone(), max_len: ml, idle_syncs: idle, dirty: false });
             }
         }
-        out.push(Scenario { values: s.clone(), max_len: None, idle_syncs: true, dirty: true });
+        // the recycled-buffer constructor: all sequences in the thorough tier, those of <= 1 value (and the pairs starting with a failing value) in the quick tier
+        if tier == Tier::Thorough || s.len() <= 1 || matches!(s[0], Val::FailEnc | Val::PartialFail) {
+            out.push(Scenario { values: s.clone(), max_len: None, idle_syncs: true, dirty: true });
+        }
     }
     for big in large_frames() {
         let v = Val::Arr(big.value.clone().unwrap());
